@@ -674,8 +674,14 @@ func (s *Service) ProcessRequest(ctx *core.Context, m map[string]interface{}, ou
 		}
 
 		code, _, err := GetStringParam(m, "code", true)
+		if err != nil {
+			return nil, err
+		}
 
 		encoding, provided, err := GetStringParam(m, "encoding", false)
+		if err != nil {
+			return nil, err
+		}
 		if provided {
 			code, err = core.DecodeString(encoding, code)
 			if err != nil {
